@@ -39,6 +39,7 @@ type metaGenState struct {
 	uploads  []int // indices of cmu ops
 	upParts  map[int][]int
 	ver      map[string]string
+	big      bool
 }
 
 func (g *metaGenState) content() []byte {
@@ -46,7 +47,7 @@ func (g *metaGenState) content() []byte {
 	if len(g.contents) > 0 && r.Chance(25) {
 		return g.contents[r.Intn(len(g.contents))] // identical content: drives dedup / shared parts
 	}
-	if r.Chance(6) { // compressible and >= 1 KiB: the compression middlewares really compress it
+	if r.Chance(2) || (g.big && r.Chance(60)) { // compressible and >= 1 KiB: the compression middlewares really compress it
 		n := 1024 + r.Intn(300)
 		c := make([]byte, n)
 		p := 3 + r.Intn(9)
@@ -233,6 +234,7 @@ func metaGenHistoryX(r *Rng, profile string, ext bool) string {
 		return metaGenSharing(r)
 	}
 	g := &metaGenState{r: r, upParts: map[int][]int{}, ver: map[string]string{}}
+	g.big = r.Chance(18) // a history of mostly large compressible bodies (parts that a compressing store really compresses)
 	hb := func(s string) string { return tokBytes(s) }
 	nb := 1 + r.Intn(2)
 	for i := 0; i < nb; i++ {
@@ -445,8 +447,28 @@ func (p *metaProp) Gen(r *Rng, tier string, n int) []string {
 	return out
 }
 
+// does the case line carry a body of at least 1 KiB (a hex token of >= 2048 characters)?
+func metaHasBigBody(in string) bool {
+	run := 0
+	for i := 0; i < len(in); i++ {
+		c := in[i]
+		if (c >= '0' && c <= '9') || (c >= 'a' && c <= 'f') {
+			run++
+			if run >= 2048 {
+				return true
+			}
+		} else {
+			run = 0
+		}
+	}
+	return false
+}
+
 func (p *metaProp) Run(in string, scratch string) Result {
 	stacks := []string{"fs", "sql", "zstd", "gzip", "tink", "ocache", "zstdtink", "zstdsql", "tinkzstd"}
+	if metaHasBigBody(in) { // bodies >= 1 KiB only behave differently where a store compresses them
+		stacks = []string{"gzip", "zstd", "gzip", "zstdsql", "gzip", "tinkzstd", "zstdtink", "gzip", "ocache"}
+	}
 	stack := stacks[crc32.ChecksumIEEE([]byte(in))%uint32(len(stacks))]
 	m, err := metaNewRun(scratch, stack)
 	if err != nil {
